@@ -42,7 +42,7 @@ def plan(tier, seed):
     specs = [{"part": "format", "seed": seed, "lo": i, "hi": min(n, i + B)} for i in range(0, n, B)]
     m = 320 if tier == "quick" else 3000
     specs += [{"part": "cli", "seed": seed, "lo": i, "hi": min(m, i + 4)} for i in range(0, m, 4)]
-    f = 48 if tier == "quick" else 600
+    f = 160 if tier == "quick" else 1600
     specs += [{"part": "filter", "seed": seed, "lo": i, "hi": min(f, i + 4)} for i in range(0, f, 4)]
     return specs
 
@@ -389,10 +389,12 @@ def run_filter(spec, res):
             m["n"] = j
             msgs.append(m)
         data = "".join(json.dumps(m, ensure_ascii=rng.random() < 0.5) + "\n" for m in msgs).encode("utf-8")
-        mode = rng.choice(["identity", "skip_odd", "skip_type", "field", "datetime", "missing_field", "falsy"])
+        mode = rng.choice(["identity", "skip_odd", "skip_type", "field", "datetime", "missing_field", "falsy", "nested_datetime", "text", "tuple"])
         expr = {"identity": "J", "skip_odd": "SKIP if J['n'] % 2 else J", "skip_type": "SKIP if 'action_type' in J else J",
                 "field": "J['task_level']", "datetime": "datetime.utcfromtimestamp(0) + timedelta(seconds=J['n'])",
-                "missing_field": "J.get('no_such_field_zz')", "falsy": "[None, 0, '', [], {}, False][J['n'] % 6]"}[mode]
+                "missing_field": "J.get('no_such_field_zz')", "falsy": "[None, 0, '', [], {}, False][J['n'] % 6]",
+                "nested_datetime": "{'when': [datetime(2020, 2, 29, 12, 0, J['n'] % 60)], 'n': J['n'], 'd': timedelta(minutes=J['n']).total_seconds()}",
+                "text": "J.get('message_type') or 'none-\u00e9\U0001f600'", "tuple": "(J['n'], J['task_uuid'], SKIP is SKIP)"}[mode]
         env = dict(os.environ, PYTHONPATH=REPO, PYTHONIOENCODING="utf-8", PYTHONWARNINGS="ignore")
         try:
             p = subprocess.run([sys.executable, "-m", "eliot.filter", expr], input=data, capture_output=True, env=env, timeout=120)
@@ -417,6 +419,12 @@ def run_filter(spec, res):
             want = [None for m in msgs]  # the JSON encoding of the expression's value, null, for every line
         elif mode == "falsy":
             want = [[None, 0, "", [], {}, False][m["n"] % 6] for m in msgs]
+        elif mode == "nested_datetime":
+            want = [{"when": [datetime.datetime(2020, 2, 29, 12, 0, m["n"] % 60).isoformat()], "n": m["n"], "d": float(m["n"] * 60)} for m in msgs]
+        elif mode == "text":
+            want = [m.get("message_type") or "none-\u00e9\U0001f600" for m in msgs]
+        elif mode == "tuple":
+            want = [[m["n"], m["task_uuid"], True] for m in msgs]
         else:
             want = [(datetime.datetime(1970, 1, 1) + datetime.timedelta(seconds=m["n"])).isoformat() for m in msgs]
         got = []
